@@ -188,7 +188,7 @@ func (r *RNG) tagValue() string {
 	n := r.Intn(8)
 	var b strings.Builder
 	for i := 0; i < n; i++ {
-		b.WriteString(r.Pick([]string{"a", "B", "0", ";", " ", "\\", "\r", "\n", "=", ":", "s", "n", "r", "~", "!", "\\s", "\\:"}))
+		b.WriteString(r.Pick([]string{"a", "B", "0", ";", " ", "\\", "\r", "\n", "=", ":", "s", "n", "r", "~", "!", "\\s", "\\:", "é", "\xe9", "\xc3", "\xe2\x82", "日"}))
 	}
 	return b.String()
 }
